@@ -8,4 +8,4 @@ git apply "$PATCH" || { echo "patch does not apply"; exit 2; }
 for c in $P "$@"; do
   (cd /verif && timeout 1200 python3 run/check.py $c --tier quick 2>&1 | tail -4 | sed "s/^/[$c] /")
 done
-git -C /repo checkout -- . && git -C /repo status --short | head -3
+git -C /repo checkout -- . && git -C /repo clean -fdq && git -C /repo status --short | head -3
